@@ -25,7 +25,7 @@ patch = os.path.join(out, 'patch.diff')
 meta = {'property': a.prop, 'seed_id': a.seed_id, 'ran': []}
 
 def sh(cmd, **kw):
-    p = subprocess.run(cmd, shell=True, stdout=subprocess.PIPE, stderr=subprocess.STDOUT, text=True, **kw)
+    p = subprocess.run(cmd, shell=True, stdout=subprocess.PIPE, stderr=subprocess.STDOUT, text=True, errors='replace', **kw)
     meta['ran'].append({'cmd': cmd, 'rc': p.returncode, 'tail': p.stdout[-600:]})
     return p
 
